@@ -8,6 +8,8 @@ generator's own description. Collections containing a field the register's acces
 must be rejected at construction.
 """
 import collections
+import copy
+import typing
 import random
 
 from vmon import env  # noqa: F401
@@ -78,6 +80,10 @@ def gen_node(rng, depth, allowed):
         n = rng.randint(1, 4) if not many else rng.randint(17, 40)
         keys = rng.sample(["a", "b", "c", "d", "e_", "_f", "g0", "a__b", "a__0", "b__0"], n) if not many else [f"k{i}" for i in range(n)]
         return ["dict", [[k, gen_node(rng, depth - 1 if not many else 0, allowed)] for k in keys]]
+    if not many and rng.random() < 0.2:
+        # a bank of identical channels described by one sub-collection that is repeated
+        one = gen_node(rng, depth - 1, allowed)
+        return ["list", [copy.deepcopy(one) for _ in range(rng.randint(2, 3))], "alias"]
     return ["list", [gen_node(rng, depth - 1 if not many else 0, allowed)
                      for _ in range(rng.randint(1, 3) if not many else rng.randint(17, 70))]]
 
@@ -100,7 +106,20 @@ def gen_case(rng, tier, idx):
     if mode == "bad" and rng.random() < 0.3:
         # the only field the register cannot serve is a degenerate one (zero or one bit wide, deep in the collection)
         def leaves_of(n):
-            return [n] if n[0] == "leaf" else [l for v in n[1] for l in leaves_of(v[1] if n[0] == "dict" else v)]
+            if n[0] == "leaf":
+                return [n]
+            kids = [v[1] for v in n[1]] if n[0] == "dict" else (n[1][:1] if len(n) > 2 else n[1])   # aliased lists: one copy
+            return [l for v in kids for l in leaves_of(v)]
+
+        def resync(n):
+            if n[0] == "leaf":
+                return
+            if n[0] == "list" and len(n) > 2:
+                resync(n[1][0])
+                n[1][1:] = [copy.deepcopy(n[1][0]) for _ in n[1][1:]]
+                return
+            for v in n[1]:
+                resync(v[1] if n[0] == "dict" else v)
         ls = leaves_of(tree)
         for l in ls:
             if l[1] not in compatible:
@@ -108,6 +127,7 @@ def gen_case(rng, tier, idx):
         victim = rng.choice(ls)
         victim[1] = rng.choice([a for a in names if a not in compatible])
         victim[2] = ["u", rng.choice([0, 0, 1])]
+        resync(tree)
     return {"access": access, "tree": tree, "top_kind": top_kind, "cycles": 120 if tier == "quick" else 300}
 
 
@@ -145,6 +165,9 @@ def to_fields(node, rng=None):
         return csr.Field(cls, mk_shape(shape))
     if node[0] == "dict":
         return spell_container(rng, {k: to_fields(v, rng) for k, v in node[1]})
+    if len(node) > 2 and node[2] == "alias":
+        one = to_fields(node[1][0], rng)          # the very same sub-collection object repeated (chan, chan, chan)
+        return spell_container(rng, [one for _ in node[1]])
     return spell_container(rng, [to_fields(v, rng) for v in node[1]])
 
 
@@ -181,10 +204,31 @@ def live_leaves(obj):
     return [obj]
 
 
+JUNK_ANNOTATIONS = {"presets": dict, "table": dict[str, int], "names": typing.Mapping[str, int], "count": int,
+                    "label": "str", "opt": typing.Optional[int], "cb": typing.Callable[[int], int], "seq": list[int]}
+
+
 def run_case(case):
     rng = random.Random(case["stim_seed"])
     mon = Mon()
     access, tree = case["access"], case["tree"]
+    junk_rng = random.Random(case["stim_seed"] + ":junk")
+
+    def annots(fields_):
+        """Class annotations: the fields plus, sometimes, ordinary typed helper attributes that are not fields (types,
+        generic aliases, strings), interleaved."""
+        out = {}
+        items = list(fields_.items())
+        extra = junk_rng.sample(sorted(JUNK_ANNOTATIONS), junk_rng.choice([0, 0, 1, 2, 3]))
+        for k_, v_ in items:
+            if extra and junk_rng.random() < 0.5:
+                j_ = extra.pop()
+                out[j_] = JUNK_ANNOTATIONS[j_]
+            out[k_] = v_
+        for j_ in extra:
+            out[j_] = JUNK_ANNOTATIONS[j_]
+        return out
+
     leaves = flatten(tree)
     incompatible = [p for p, (_l, act, _s) in leaves
                     if any(ch not in access for ch in ACTIONS[act][0] if ch in "rw")]
@@ -208,7 +252,7 @@ def run_case(case):
                     bf = {"zz_base": csr.Field(ProbeAction, unsigned(3), "rw" if access == "rw" else access),
                           "yy_base": [csr.Field(ProbeAction, unsigned(1), "rw" if access == "rw" else access)]}
                     b_ = type("AnnBase", (csr.Register,), {"__annotations__": bf}, access=access)
-                    return b_, type("AnnDerived", (b_,), {"__annotations__": dict(to_fields(tree))})
+                    return b_, type("AnnDerived", (b_,), {"__annotations__": annots(to_fields(tree))})
 
                 def shape_of(r_):
                     return [(type(a).__name__, a.port.access.value, Value.cast(a.port.r_data).shape().width)
@@ -218,21 +262,21 @@ def run_case(case):
                 control = shape_of(d0())            # subclass instantiated without its base ever being instantiated
                 base, cls = hierarchy()
                 base()
-                cls = type("AnnDerived", (base,), {"__annotations__": dict(fields)})
+                cls = type("AnnDerived", (base,), {"__annotations__": annots(fields)})
                 reg = cls()
                 order_dependent = shape_of(reg) != control
                 inherits = len(control) != len(leaves)
             elif x_ < 0.4:
-                cls = type("AnnReg", (csr.Register,), {"__annotations__": dict(fields)}, access=access)
+                cls = type("AnnReg", (csr.Register,), {"__annotations__": annots(fields)}, access=access)
                 reg = cls()
             elif x_ < 0.5:
                 # a subclass that declares no fields of its own (only a helper method) has its parent's fields
-                base_ = type("AnnReg", (csr.Register,), {"__annotations__": dict(fields)}, access=access)
+                base_ = type("AnnReg", (csr.Register,), {"__annotations__": annots(fields)}, access=access)
                 cls = type("AnnChild", (base_,), {"__doc__": "same fields, one more method", "helper": lambda self: 1})
                 reg = cls()
             else:
                 # access given per instance: the same class is instantiated several times
-                cls = type("AnnReg", (csr.Register,), {"__annotations__": dict(fields)})
+                cls = type("AnnReg", (csr.Register,), {"__annotations__": annots(fields)})
                 reg = cls(access=access)
                 reinst = []
                 for other in ("r", "w", "rw"):
